@@ -35,6 +35,8 @@ type Sel struct {
 	Ties int
 	// Reorgs counts tip moves that were not plain extensions.
 	Reorgs int
+
+	manualOrphanDrained bool
 }
 
 // NewSel returns the model for a tree with only genesis arrived.
@@ -157,6 +159,11 @@ func (s *Sel) DeliverBlock(n *Node) Outcome {
 		s.Orphan[n] = true
 		return Outcome{MustSucceed: true, IsOrphan: true, Why: "parent data unknown"}
 	}
+	if s.Manual[n] {
+		// its header was invalidated by hand before the block data arrived: the block is
+		// refused and not stored (it can be delivered again after a reconsider)
+		return Outcome{MustError: true, Why: "block whose header was invalidated by hand"}
+	}
 	if s.ManualOnPath(n.Parent) {
 		s.Murky[n] = true
 		return Outcome{Why: "delivered under a manually invalidated ancestor"}
@@ -209,6 +216,16 @@ func (s *Sel) accept(n *Node, out *Outcome, first bool) {
 		// only decided once the call is over, see DeliverBlock)
 		for _, c := range n.Children {
 			if s.Orphan[c] {
+				if s.Manual[c] {
+					// an orphan whose header was invalidated by hand while it waited: the node
+					// refuses it when its parent arrives (and reports that rule error); what
+					// happens to it and to the orphans below it is open
+					delete(s.Orphan, c)
+					s.Murky[c] = true
+					s.murkOrphansBelow(c)
+					s.manualOrphanDrained = true
+					continue
+				}
 				delete(s.Orphan, c)
 				out.Drained = append(out.Drained, c)
 				sub := Outcome{}
@@ -216,6 +233,10 @@ func (s *Sel) accept(n *Node, out *Outcome, first bool) {
 				out.Drained = append(out.Drained, sub.Drained...)
 			}
 		}
+	}
+	if first && s.manualOrphanDrained {
+		allValid = false
+		s.manualOrphanDrained = false
 	}
 	if first {
 		for _, d := range out.Drained {
